@@ -82,7 +82,7 @@ fn fill_value(vk: u64, row: u64) -> V {
     match vk {
         0 => V::Int(row as i64),
         1 => V::Float(row),
-        2 => V::Str(row + 1),
+        2 => V::Str(row),
         3 => V::Bool(row % 2 == 0),
         4 => V::Other(row),
         _ => V::Null,
